@@ -70,6 +70,7 @@ import (
 	lockuptypes "github.com/osmosis-labs/osmosis/v31/x/lockup/types"
 	poolmanagertypes "github.com/osmosis-labs/osmosis/v31/x/poolmanager/types"
 	protorevtypes "github.com/osmosis-labs/osmosis/v31/x/protorev/types"
+	smartaccounttypes "github.com/osmosis-labs/osmosis/v31/x/smart-account/types"
 	tftypes "github.com/osmosis-labs/osmosis/v31/x/tokenfactory/types"
 	txfeestypes "github.com/osmosis-labs/osmosis/v31/x/txfees/types"
 
@@ -179,6 +180,7 @@ func genWorkload(seed int64, nblocks int) []block {
 	focus, focusLeft := -1, 0
 	scriptPid := int64(0)
 	lbpPid := int64(0)
+	authNext, authLast := int64(1), -1 // x/smart-account: the id the next authenticator gets, the owner of the newest one
 	for b := 0; b < nblocks; b++ {
 		bl := block{Txs: []txT{}}
 		switch r := rng.Intn(10); {
@@ -285,6 +287,23 @@ func genWorkload(seed int64, nblocks int) []block {
 			addPool(kBalancer, iUosmo, iEth)
 			lbpPid = int64(len(pools))
 			bl.Txs = append(bl.Txs, plain(op{K: "createLBP", U: 3, D: iUosmo, E: iEth, A: 300000, B: 0, C: 2}))
+		}
+		// x/smart-account authenticators (scripted, no randomness): ids come from ONE chain-wide counter.  Two permanent
+		// ones in block 1, then every five blocks one is added and removed again in the next block, so that in four
+		// of five states the newest id handed out is not in use any more (the counter is state of its own, not
+		// derivable from the authenticators that exist) and the next one is added after every export/import point.
+		if b == 1 {
+			bl.Txs = append(bl.Txs, plain(op{K: "authAdd", U: 0}), plain(op{K: "authAdd", U: 1}))
+			authNext += 2
+		}
+		if b > 1 && b%5 == 1 {
+			authLast = b % nUsers
+			bl.Txs = append(bl.Txs, plain(op{K: "authAdd", U: authLast}))
+			authNext++
+		}
+		if b > 1 && b%5 == 2 && authLast >= 0 {
+			bl.Txs = append(bl.Txs, plain(op{K: "authRemove", U: authLast, C: authNext - 1}))
+			authLast = -1
 		}
 		if lbpPid > 0 && b > 8 && b%6 == 3 { // trades on it for the rest of the history (on replicas and importers alike)
 			bl.Txs = append(bl.Txs, plain(op{K: "swap", U: b % nUsers, D: iUosmo, E: iEth, A: int64(500 + b), C: lbpPid}))
@@ -949,6 +968,10 @@ func (n *node) track(tx txT, ok, anteFailed bool) {
 	case ok:
 		for _, o := range tx.Ops {
 			switch o.K {
+			case "authAdd":
+				n.cnt["authenticatorsAdded"]++
+			case "authRemove":
+				n.cnt["authenticatorsRemoved"]++
 			case "swap", "joinPool", "exitPool", "clPosition":
 				if n.fts[uint64(o.C)] {
 					n.cnt["opsOnFailedThenSucceededPools"]++
@@ -1031,6 +1054,10 @@ func (n *node) msgOf(o op) sdk.Msg {
 		return &cltypes.MsgWithdrawPosition{PositionId: uint64(o.C), Sender: u.String(), LiquidityAmount: osmomath.NewDec(o.A)}
 	case "clCollect":
 		return &cltypes.MsgCollectSpreadRewards{PositionIds: []uint64{uint64(o.C)}, Sender: u.String()}
+	case "authAdd": // one more signature-verification authenticator for the sender's own key
+		return &smartaccounttypes.MsgAddAuthenticator{Sender: u.String(), AuthenticatorType: "SignatureVerification", Data: n.users[o.U].priv.PubKey().Bytes()}
+	case "authRemove":
+		return &smartaccounttypes.MsgRemoveAuthenticator{Sender: u.String(), Id: uint64(o.C)}
 	case "tfCreate":
 		sub := fmt.Sprintf("tok%d", o.A%7)
 		n.tf = append(n.tf, fmt.Sprintf("factory/%s/%s", u.String(), sub))
